@@ -16,13 +16,36 @@ package server
 //@ ghost field (server).fanTopic string
 //@ ghost field (server).fanMatch int
 
-// The fan-out itself (matching subscriptions, queueing per subscriber) is C01 / C02 / C11; here it is an opaque
-// step that is counted (trusted until deliverMessage is verified against it).
-//@ func (*server).deliverMessage trusted
+// The fan-out: a handler for this message is created, the subscription store is asked once, with the options given,
+// to report the matching subscriptions to the handler's d.fn, and the handler is flushed once; the result is the
+// handler's "matched" flag. ($fanout counts the fan-outs; $fanMsg etc. are the arguments of the last one.) Which
+// subscriptions the store reports is C02; what d.fn and flush do with them is proved on the closures and on flush.
+//@ func (*server).deliverMessage
+//@ props C01 C11
 //@ requires srv != nil && msg != nil
-//@ modifies heap, ghost(srv.$fanout), ghost(srv.$fanMsg), ghost(srv.$fanSrc), ghost(srv.$fanTopic), ghost(srv.$fanMatch)
+//@ requires [C01] srv.subscriptionsDB != nil && srv.queueStore != nil && srv.config.MQTT.MessageExpiry >= 0 && (forall k string :: has(srv.queueStore, k) ==> srv.queueStore[k] != nil)
+//@ ghost set srv.$fanout = srv.$fanout + 1
+//@ ghost set srv.$fanMsg = msg
+//@ ghost set srv.$fanSrc = srcClientID
+//@ ghost set srv.$fanTopic = options.TopicName
+//@ ghost set srv.$fanMatch = int(options.MatchType)
+//@ modifies heap, ghost(srv.$fanout), ghost(srv.$fanMsg), ghost(srv.$fanSrc), ghost(srv.$fanTopic), ghost(srv.$fanMatch), ghostall(queue.Store.$adds)
 //@ preserves all(server.*), all(Hooks.*), all(statsManager.*), all(gmqtt.Message.*), all(WillMsgRequest.*), all(gmqtt.Session.*), all(client.*), all(ClientOptions.*), all(packets.Disconnect.*), all(packets.Properties.*), allcells(uint32), allmaps(string, *willMsg), allcells(*server), allcells(*willMsg), allcells(*gmqtt.Message), allcells(string), allcells(bool)
 //@ ensures srv.$fanout == old(srv.$fanout) + 1 && srv.$fanMsg == msg && srv.$fanSrc == srcClientID && srv.$fanTopic == options.TopicName && srv.$fanMatch == int(options.MatchType)
+//@ ensures [C01] called(newDeliverHandler#1) == 1 && called(Store.Iterate#1) == 1 && called(deliverHandler.flush#1) == 1
+//@ call newDeliverHandler#1 assert [C01] mode == srv.config.MQTT.DeliveryMode && $arg1 == srcClientID && $arg2 == msg && $arg4 == srv
+//@ call Store.Iterate#1 assert [C01 C11] fn == d.fn && $arg2.Type == options.Type && $arg2.ClientID == options.ClientID && $arg2.TopicName == options.TopicName && $arg2.MatchType == options.MatchType
+//@ call deliverHandler.flush#1 assert [C01] $arg0 == d
+
+// Iterate reports stored subscriptions to fn, one call each, and does nothing else; so a property of the deliver
+// handler that d.fn keeps (proved: newDeliverHandler$1 / $3 keep dOK, slOK and mqOK) still holds afterwards.
+// The step from "fn keeps it" to "Iterate keeps it" is this (trusted) interface contract.
+//@ func (subscription.Store).Iterate
+//@ params s, fn, options
+//@ requires fn != nil
+//@ modifies heap, ghostall(queue.Store.$adds)
+//@ preserves all(server.*), all(Hooks.*), all(statsManager.*), all(gmqtt.Message.*), all(WillMsgRequest.*), all(gmqtt.Session.*), all(client.*), all(ClientOptions.*), all(packets.Disconnect.*), all(packets.Properties.*), allcells(uint32), allmaps(string, *willMsg), allcells(*server), allcells(*willMsg), allcells(*gmqtt.Message), allcells(string), allcells(bool), all(deliverHandler.* - matched), all(gmqtt.Subscription.*), allmaps(string, queue.Store), all(config.MQTT.*)
+//@ ensures forall dd *deliverHandler :: old(dOK(dd) && slOK(dd) && mqOK(dd)) ==> dOK(dd) && slOK(dd) && mqOK(dd)
 
 // OnWillPublish: plugin code; it may replace, edit or drop (nil) the message of the request and set the iteration
 // options. OnWillPublished: told about the message that was published.
@@ -50,7 +73,8 @@ package server
 //@ let H = srv.hooks
 //@ let R = srv.retainedDB
 //@ requires [C08] srv != nil && msg != nil && srv.retainedDB != nil
-//@ modifies heap, ghost(srv.$fanout), ghost(srv.$fanMsg), ghost(srv.$fanSrc), ghost(srv.$fanTopic), ghost(srv.$fanMatch), ghost(H.$wp), ghost(H.$wpMsg), ghost(H.$wpd), ghost(H.$wpdMsg), ghost(R.$msg), ghost(R.$ops)
+//@ requires [C08] srv.subscriptionsDB != nil && srv.queueStore != nil && srv.config.MQTT.MessageExpiry >= 0 && (forall k string :: has(srv.queueStore, k) ==> srv.queueStore[k] != nil)
+//@ modifies heap, ghost(srv.$fanout), ghost(srv.$fanMsg), ghost(srv.$fanSrc), ghost(srv.$fanTopic), ghost(srv.$fanMatch), ghost(H.$wp), ghost(H.$wpMsg), ghost(H.$wpd), ghost(H.$wpdMsg), ghost(R.$msg), ghost(R.$ops), ghostall(queue.Store.$adds)
 //@ preserves all(server.*), all(Hooks.*), all(statsManager.*), all(gmqtt.Session.*), all(client.*), all(ClientOptions.*), all(packets.Disconnect.*), all(packets.Properties.*), allcells(uint32), allmaps(string, *willMsg), allcells(*server), allcells(*willMsg), allcells(*gmqtt.Message), allcells(string), allcells(bool)
 //@ ensures [C14] old(H.OnWillPublish) != nil ==> H.$wp == old(H.$wp) + 1
 //@ ensures [C14 C08] old(H.OnWillPublish) != nil && H.$wpMsg == nil ==> srv.$fanout == old(srv.$fanout) && R.$ops == old(R.$ops) && H.$wpd == old(H.$wpd)
@@ -155,7 +179,8 @@ package server
 //@ requires [C08] srv != nil && client != nil && client.opts != nil && client.rwc != nil && srv.sessionStore != nil && srv.retainedDB != nil && srv.subscriptionsDB != nil && smOK(srv.statsManager)
 //@ requires [C08] srv.clients != nil && srv.offlineClients != nil && srv.willMessage != nil && srv.queueStore != nil
 //@ requires [C08] client.version == 5 && client.disconnect != nil ==> client.disconnect.Properties != nil
-//@ modifies heap, ghost(srv.$fanout), ghost(srv.$fanMsg), ghost(srv.$fanSrc), ghost(srv.$fanTopic), ghost(srv.$fanMatch), ghost(srv.hooks.$wp), ghost(srv.hooks.$wpMsg), ghost(srv.hooks.$wpd), ghost(srv.hooks.$wpdMsg), ghost(srv.retainedDB.$msg), ghost(srv.retainedDB.$ops), ghostall(queue.Store.$cleans), ghost(srv.sessionStore.$removes), ghost(srv.sessionStore.$lastRemoved), ghost(srv.sessionStore.$has), ghost(srv.subscriptionsDB.$unsubAlls), ghost(srv.subscriptionsDB.$lastUnsubAll), ghost(srv.hooks.$st), ghost(srv.hooks.$stID), ghost(srv.hooks.$stReason)
+//@ requires [C08] srv.config.MQTT.MessageExpiry >= 0 && (forall k string :: has(srv.queueStore, k) ==> srv.queueStore[k] != nil)
+//@ modifies heap, ghost(srv.$fanout), ghost(srv.$fanMsg), ghost(srv.$fanSrc), ghost(srv.$fanTopic), ghost(srv.$fanMatch), ghost(srv.hooks.$wp), ghost(srv.hooks.$wpMsg), ghost(srv.hooks.$wpd), ghost(srv.hooks.$wpdMsg), ghost(srv.retainedDB.$msg), ghost(srv.retainedDB.$ops), ghostall(queue.Store.$adds), ghostall(queue.Store.$cleans), ghost(srv.sessionStore.$removes), ghost(srv.sessionStore.$lastRemoved), ghost(srv.sessionStore.$has), ghost(srv.subscriptionsDB.$unsubAlls), ghost(srv.subscriptionsDB.$lastUnsubAll), ghost(srv.hooks.$st), ghost(srv.hooks.$stID), ghost(srv.hooks.$stReason)
 //@ preserves all(server.*), all(Hooks.*), all(client.*), all(ClientOptions.*)
 //@ ensures [C08] sess == nil ==> called(server.sendWillLocked#1) == 0 && spawned() == 0
 //@ ensures [C05] storeSession == (sess != nil && client.forceRemoveSession != 1 && sess.ExpiryInterval != 0)
@@ -174,7 +199,9 @@ package server
 //@ func (*server).unregisterClient$1
 //@ props C08
 //@ requires [C08] srv != nil && wm != nil && t != nil && msg != nil && srv.willMessage != nil && srv.retainedDB != nil
-//@ modifies heap, ghost(srv.$fanout), ghost(srv.$fanMsg), ghost(srv.$fanSrc), ghost(srv.$fanTopic), ghost(srv.$fanMatch), ghost(srv.hooks.$wp), ghost(srv.hooks.$wpMsg), ghost(srv.hooks.$wpd), ghost(srv.hooks.$wpdMsg), ghost(srv.retainedDB.$msg), ghost(srv.retainedDB.$ops)
+// (srv.mu is taken inside: what is required of the broker's tables is a property of the tables, see registerClient)
+//@ requires [C08] srv.subscriptionsDB != nil && srv.queueStore != nil && srv.config.MQTT.MessageExpiry >= 0 && (forall k string :: has(srv.queueStore, k) ==> srv.queueStore[k] != nil)
+//@ modifies heap, ghost(srv.$fanout), ghost(srv.$fanMsg), ghost(srv.$fanSrc), ghost(srv.$fanTopic), ghost(srv.$fanMatch), ghost(srv.hooks.$wp), ghost(srv.hooks.$wpMsg), ghost(srv.hooks.$wpd), ghost(srv.hooks.$wpdMsg), ghost(srv.retainedDB.$msg), ghost(srv.retainedDB.$ops), ghostall(queue.Store.$adds)
 //@ ensures [C08] !has(srv.willMessage, clientID)
 //@ ensures [C08] called(server.sendWillLocked#1) == (send ? 1 : 0)
 //@ call server.sendWillLocked#1 assert [C08] send && !has(srv.willMessage, clientID)
